@@ -94,7 +94,7 @@ def evaluate(sid):
             subprocess.run(["cp", "-a", base, tdir], check=True)
         env = dict(os.environ, VERIF_REPO=repo, VERIF_TARGET_DIR=tdir, VERIF_NO_EVIDENCE="1")
         fired = {}
-        for prop in PROPS:
+        for prop in ["ALL"]:
             rc, out = sh([os.path.join(VERIF, "check"), prop], env=env)
             if "fact extraction failed" in out:
                 return sid, None, "does not compile under nightly check: " + out[-400:]
